@@ -213,14 +213,14 @@ fn main() {
         return;
     }
     let exe = std::env::current_exe().expect("exe");
-    let mut out = Out::new(&args, "From Verif Require Import Persist.", "Persist.case", "Persist.check_case", if args.thorough { 300 } else { 100 });
+    let mut out = Out::new(&args, "From Verif Require Import Persist.", "Persist.case", "Persist.check_case", if args.thorough { 70 } else { 100 });
     out.rule = "histories of 2..7 persist_* operations (create/delete/update of nodes and relationships over 3 tenants, \
                 ids 1..4 so that overwrites, deletions and updates of present entities are frequent, quotas 1..3 or none) \
                 and clean restarts, plus two stored witnesses; each history is run in a child process once to the end and \
                 once per hook point reached (the child is killed there with SIGKILL); the parent recovers every tenant in a new process. \
                 One case = (history, crash position). Non-trivial = the history has a crash or an update; distinct by case text."
         .to_string();
-    let nh: u64 = if args.thorough { 300 } else { 16 };
+    let nh: u64 = if args.thorough { 120 } else { 16 };
     let run_dir = args.out.join(".c16-run");
     for idx in 0..nh {
         let case = gen_case(args.seed, idx);
